@@ -5,6 +5,7 @@
 //	exclude  schema.ExcludeRealm / ExcludeSchema on generated realms x pattern lists
 //	skip     SchemaDiff of the sqlite/mysql/postgres DefaultDiff with DiffSkipChanges(K), all K
 //	reuse    sequences of SchemaDiff calls that share option values (DiffSkipChanges, DiffNormalized), 3 dialects
+//	inspect  sqlite InspectSchema / InspectRealm with kept Exclude values, on a database with tables main, secret
 //	cli      the real atlas binary: schema inspect/apply --exclude, --env with diff.skip, on SQLite files
 //	gen      writes coq/theories/gen/Gen_SkipKinds.v from the Go sources
 //
@@ -23,7 +24,7 @@ import (
 )
 
 func main() {
-	mode := flag.String("mode", "match", "match|exclude|skip|reuse|cli|gen")
+	mode := flag.String("mode", "match", "match|exclude|skip|reuse|inspect|cli|gen")
 	tier := flag.String("tier", "quick", "quick|thorough")
 	outDir := flag.String("out", "", "output directory")
 	flag.Parse()
@@ -49,6 +50,8 @@ func main() {
 		runSkip(w, *tier)
 	case "reuse":
 		runReuse(w, *tier)
+	case "inspect":
+		runInspect(w, *tier)
 	case "cli":
 		runCLI(w, *tier)
 	default:
